@@ -343,6 +343,28 @@ def high_order_body(ctx, case):
             break
 
 
+def extreme_cases(tier):
+    return [{"n": n, "m": m, "N": N} for n, m, N in ((400, 0, 64), (790, 0, 64), (800, 0, 256), (1000, 2, 64), (1001, -1, 33), (1500, 0, 16))]
+
+
+def extreme_body(ctx, case):
+    """Radial orders of a thousand (j ~ 5e5) exist in the Noll sequence: whatever the accuracy inside, a mode vanishes
+    outside the inscribed pupil and is finite on it, bounded by its peak sqrt(2(n+1))."""
+    z, _ = Z()
+    n, m, N = case["n"], case["m"], case["N"]
+    ctx.case(case, nontrivial=True, classes=["n_%d" % n])
+    with np.errstate(all="ignore"):
+        import warnings
+        with warnings.catch_warnings():
+            warnings.simplefilter("ignore")
+            got = np.asarray(z.zernike_nm(n, m, N), dtype=np.float64)
+    ii = 2 * np.arange(N) + 1 - N
+    inside = (ii[None, :] ** 2 + ii[:, None] ** 2) <= N * N
+    ctx.require(bool(np.all(np.isfinite(got))), "zernike_nm(%d, %d, %d) is not finite (%d NaN / inf samples, %d of them outside the pupil)" % (n, m, N, int(np.sum(~np.isfinite(got))), int(np.sum(~np.isfinite(got) & ~inside))))
+    ctx.require(not np.any(got[~inside]), "zernike_nm(%d, %d, %d) is non-zero outside the inscribed pupil" % (n, m, N))
+    ctx.require(float(np.max(np.abs(got))) <= math.sqrt(2 * (n + 1)) * (1 + 1e-6), "zernike_nm(%d, %d, %d) exceeds its peak value sqrt(2(n+1)): %r" % (n, m, N, float(np.max(np.abs(got)))))
+
+
 def very_high_cases(tier):
     ns = [13, 20, 26, 31, 36, 40, 44, 45, 50, 60] if tier == "quick" else [13, 17, 20, 26, 31, 33, 36, 40, 44, 45, 50, 55, 60, 80, 120, 170, 171, 200]
     out = []
@@ -379,6 +401,7 @@ def very_high_body(ctx, case):
 LAWS = [
     plain_law("many_modes_large_grid", big_phase_cases, big_phase_body, shards={"quick": 3, "thorough": 3}),
     plain_law("high_orders", high_order_cases, high_order_body, shards={"quick": 4, "thorough": 8}),
+    plain_law("extreme_orders_support", extreme_cases, extreme_body, shards={"quick": 2, "thorough": 2}),
     plain_law("very_high_orders", very_high_cases, very_high_body, shards={"quick": 4, "thorough": 8}),
     given_law("modes_xl", mode_cases(320, 20), mode_body, {"quick": 0, "thorough": 40}, shards={"quick": 1, "thorough": 16}),
     Law("noll_index", index_run, replay=index_replay, shards={"quick": 16, "thorough": 16}),
